@@ -802,44 +802,32 @@ def blocks(data, min_len=2, max_len=np.inf, wrap=False, digits=None, only_nonzer
         if only_nonzero and not bool(data[0]):
             return blocks
 
-        # if all values are True or False we can exit
-        if len(blocks) == 1 and len(blocks[0]) == len(data):
+        # if every value is the same there is a single
+        # run which doesn't wrap onto itself so we can exit
+        if len(infl_len) == 1:
             return blocks
 
-        # so now first point equals last point, so the cases are:
-        # - first and last point are in a block: combine two blocks
-        # - first OR last point are in block: add other point to block
-        # - neither are in a block: check if combined is eligible block
-
-        # first point is in a block
-        first = len(blocks) > 0 and blocks[0][0] == 0
-        # last point is in a block
-        last = len(blocks) > 0 and blocks[-1][-1] == (len(data) - 1)
-
-        # CASE: first and last point are BOTH in block: combine blocks
-        if first and last:
-            blocks[0] = np.append(blocks[-1], blocks[0])
+        # so now first point equals last point which means the first
+        # and the last run are a single run that wraps around the end
+        # of the array: neither is a block by itself so remove them
+        # if they were included and check the combined run instead
+        first = bool(infl_ok[0])
+        if bool(infl_ok[-1]):
             blocks.pop()
-        else:
-            # combined length
-            combined = infl_len[0] + infl_len[-1]
-            # exit if lengths aren't OK
-            if combined < min_len or combined > max_len:
-                return blocks
+        if first:
+            blocks.pop(0)
+
+        # length of the run that wraps around
+        combined = infl_len[0] + infl_len[-1]
+        if combined >= min_len and combined <= max_len:
             # new block combines both ends
             new_block = np.append(
                 np.arange(infl[-2], infl[-1]), np.arange(infl[0], infl[1])
             )
-            # we are in a first OR last situation now
             if first:
-                # first was already in a block so replace it with combined
-                blocks[0] = new_block
-            elif last:
-                # last was already in a block so replace with superset
-                blocks[-1] = new_block
+                # keep the position of the block we replaced
+                blocks.insert(0, new_block)
             else:
-                # both are false
-                # combined length generated new block
                 blocks.append(new_block)
 
     return blocks
